@@ -74,7 +74,7 @@ func runOp(op *Op, arg int) (res string, buf []byte) {
 func cmdRef() {
 	m := map[string]string{}
 	for i := range ops {
-		for a := 0; a < nArgs*4; a++ {
+		for a := 0; a < argSpace; a++ {
 			r1, _ := runOp(&ops[i], a)
 			r2, _ := runOp(&ops[i], a)
 			if r1 != r2 {
@@ -200,7 +200,7 @@ func runSchedule(id int, sc schedCase, ref map[string]string) map[string]any {
 				park(g, "idle")
 				cands := opsOfClass(cls)
 				op := cands[(id+g*7+c*3)%len(cands)]
-				arg := (g*5 + c + id) % (nArgs * 4)
+				arg := (g*5 + c + id) % argSpace
 				held = dropOwn(held, g, op.Name, func(e Event) { evs = append(evs, e) })
 				res, buf := runOp(op, arg)
 				evs = append(evs, Event{E: "ret", G: g, C: c + 1, Op: op.Name, Cls: cls, Res: short(res),
@@ -282,7 +282,7 @@ func goid() int64 {
 	return 0
 }
 
-func runFree(run, n, m int, seed int64, ref map[string]string, menu []*Op) map[string]any {
+func runFree(run, n, m int, seed int64, ref map[string]string, menu []*Op, argList []int) map[string]any {
 	var seq int64
 	instIDs := &ids{m: map[uintptr]int{}}
 	bufIDs := &ids{m: map[uintptr]int{}}
@@ -330,7 +330,10 @@ func runFree(run, n, m int, seed int64, ref map[string]string, menu []*Op) map[s
 			<-start
 			for c := 1; c <= m; c++ {
 				op := menu[rng.Intn(len(menu))]
-				arg := rng.Intn(nArgs * 4)
+				arg := rng.Intn(argSpace)
+				if len(argList) > 0 {
+					arg = argList[rng.Intn(len(argList))]
+				}
 				mine = dropOwn(mine, g, op.Name, func(e Event) {
 					e.n = atomic.AddInt64(&seq, 1)
 					per[g] = append(per[g], e)
@@ -379,6 +382,7 @@ func cmdFree(args []string) {
 	m := fs.Int("ops", 100, "calls per goroutine")
 	runs := fs.Int("runs", 1, "runs")
 	only := fs.String("only", "", "restrict the menu to ops whose name contains one of these comma separated texts")
+	argsFlag := fs.String("args", "", "restrict the arguments to this comma separated list (option pairs chosen by TLC)")
 	procs := fs.Int("procs", 0, "GOMAXPROCS (0: default); few Ps make goroutines share the per-P pool slots")
 	_ = fs.Parse(args)
 	if *procs > 0 {
@@ -398,9 +402,19 @@ func cmdFree(args []string) {
 			menu = append(menu, &ops[i])
 		}
 	}
+	var argList []int
+	for _, t := range strings.Split(*argsFlag, ",") {
+		if v, err := strconv.Atoi(strings.TrimSpace(t)); err == nil {
+			argList = append(argList, v)
+		}
+	}
+	if len(menu) == 0 {
+		fmt.Fprintln(os.Stderr, "empty menu")
+		os.Exit(2)
+	}
 	enc := json.NewEncoder(os.Stdout)
 	for r := 1; r <= *runs; r++ {
-		_ = enc.Encode(runFree(r, *n, *m, seed, ref, menu))
+		_ = enc.Encode(runFree(r, *n, *m, seed, ref, menu, argList))
 	}
 }
 
@@ -419,7 +433,7 @@ func main() {
 		for _, o := range ops {
 			out = append(out, od{o.Name, o.Class})
 		}
-		b, _ := json.Marshal(map[string]any{"ops": out, "hooks": hooksCompiled})
+		b, _ := json.Marshal(map[string]any{"ops": out, "hooks": hooksCompiled, "optFields": optFields})
 		fmt.Println(string(b))
 	case "ref":
 		cmdRef()
